@@ -61,6 +61,7 @@ def main():
         log("[C19] failing observations by tag: %s" % tags)
     # the tool: bedtobigbed without --autosql generates the schema from the first line; with --autosql stores it verbatim
     tool_part(run)
+    python_part(run, [o for o in keep if o["kind"] == "valid"])
     run.cov["rule"] = ("(valid) every single declaration (3 kinds x 5 index forms x 1..2 fields over 12 field forms) and multi-declaration schemas of 2..5 declarations, rendered with seeded whitespace; "
                        "(mut) every truncation and single-token mutation/deletion of a base set; (short) every token string of length <= K over 14 tokens; (bed) 0..40 extra columns; "
                        "non-trivial = everything but the short strings; distinct by text")
@@ -68,6 +69,38 @@ def main():
     run.assumptions += ["which inputs are rejected is only constrained for generated-valid schemas (must be accepted with the declared fields)",
                         "'growing without bound' is observed as the worker exceeding a 3 GB address-space limit or the hang watchdog"]
     return run.finish()
+
+
+def python_part(run, valid):
+    """pybigtools: BBIRead.sql() of files written with a supplied schema (anchor pybigtools/src/lib.rs)"""
+    import subprocess
+    from checks.c20 import build_extension, VENV_PY
+    moddir = build_extension()
+    step = max(1, len(valid) // (300 if run.thorough else 60))
+    sel = valid[::step]
+    wc = []
+    for k, o in enumerate(sel):
+        wc.append({"kind": "bb", "chroms": [20], "items": [[1, 1, 5, 1]], "vmap": "int", "scale": 1, "allq": 0, "zq": 0, "mz": [], "asq": "same", "long": 0,
+                   "autosql": o["text"], "restmode": "uniq",
+                   "opts": {"ips": 2, "bs": 2, "zooms": [], "zmode": "manual", "compress": 1, "inmem": 1, "rt": "current", "threads": 1, "pass": 1, "chan": 100},
+                   "dump": os.path.join(run.wd, "sql%d.bb" % k)})
+    res = run_harness("bbi", wc, run.wd, shards=1)
+    pin, pout = os.path.join(run.wd, "sql_in.ndjson"), os.path.join(run.wd, "sql_out.ndjson")
+    with open(pin, "w") as f:
+        for k, (o, r_) in enumerate(zip(sel, res)):
+            if r_["obs"].get("result") == "ok":
+                f.write(json.dumps({"mode": "sql", "path": r_["dump"], "schema": o["text"], "kind": "pysql", "counts": o["counts"], "hfc": o["hfc"], "n": 0}) + "\n")
+    subprocess.run([VENV_PY, os.path.join(ROOT, "pyverif", "py_driver.py"), moddir, pin, pout], timeout=600, stdout=subprocess.PIPE, stderr=subprocess.PIPE)
+    obs = [json.loads(l) for l in open(pout)] if os.path.exists(pout) else []
+    lines = [json.dumps({k: o[k] for k in ("kind", "counts", "hfc", "n", "obs")}, separators=(",", ":")) for o in obs]
+    bad = validate_obs("Obs_AutoSql", "Obs.cfg", lines, run.wd, "pysql", shards=1)
+    run.cov["traces_validated_against_impl"] += len(obs)
+    run.cov["python_sql_runs"] = len(obs)
+    for o in obs:
+        run.count_case("pysql" + o["path"], True)
+    for i, tag in bad:
+        o = obs[i]
+        run.violation("C19 pybigtools sql(): %s -> %s" % (tag, json.dumps(o["obs"])), {"kind": "pysql", "tag": tag, "obs": o["obs"], "hfc": o["hfc"]})
 
 
 def tool_part(run):
